@@ -14,7 +14,7 @@ PROP = {
                  "Grol.C19.statement_partial", "Grol.C19.kept_acc", "Grol.C19.kept_rigid", "Grol.C19.eqv_rigid", "Grol.K.spec_all",
                  "Grol.K.post_createOrSet", "Grol.K.post_setNoChecks", "Grol.K.post_envGet", "Grol.K.post_makeRef"],
     "suites": ["consts"],
-    "rule": "consts suite: a case is a session run by the real interpreter under 4 configurations (cache on/off x registers on/off) and by the Lean "
+    "rule": "[4th session: constant types now include representation/size mismatches - a *BigMap with few pairs from a repeated-key literal, a shrunk-and-copied map, a short slice of a large array.] consts suite: a case is a session run by the real interpreter under 4 configurations (cache on/off x registers on/off) and by the Lean "
             "evaluator model (cache on/off): input 0 binds a constant (names FOO, AB_1, Z9, K) to a value of one of 11 kinds (int, float, bool, string, nil, "
             "small/large array, small/large map, function, nested large containers); every mutation attempt is followed by an input holding the bare name "
             "(read probe). 21 syntactic kinds of attempt (= and :=, ++/-- postfix and prefix, N[i]=v, N.k=v, del(N[i]), del(N.k), integer and list loop variable, "
